@@ -724,7 +724,14 @@ class Flow:
     # .................................................................. calls
     def _bind_env(self, callee, call, fn, env, depth, skip_self):
         bound = self.res.bind_args(callee, call, skip_self)
-        cenv = dict(env)
+        # the callee only sees its own parameters and the constructor bindings of its own class family
+        keep = {callee.qual}
+        if callee.cls is not None:
+            for c in set(self.prog.mro(callee.cls)) | set(self.prog.subclasses(callee.cls)):
+                init = c.methods.get("__init__")
+                if init is not None:
+                    keep.add(init.qual)
+        cenv = {k: v for k, v in env.items() if k[0] in keep}
         for p, arg in bound.items():
             if p in ("*", "**") or p.startswith("*"):
                 continue
